@@ -2,6 +2,7 @@ package main
 
 import (
 	"bytes"
+	"os"
 	"encoding/base64"
 	"encoding/xml"
 	"fmt"
@@ -563,7 +564,7 @@ func runC09(c *Ctx) {
 	if c.Thorough() {
 		nReq = 40000
 	}
-	c.R.Rule = fmt.Sprintf("%d requests per backend instance drawn from a grammar of the routed surface (methods incl. unknown ones; service/bucket/object paths incl. hostile keys and names; sub-resources uploads, uploadId, partNumber, versioning, versions, versionId, delete, location, list-type, prefix, delimiter, marker, max-keys, continuation-token, start-after, key-marker, version-id-marker, upload-id-marker, max-uploads, max-parts, part-number-marker with absurd numeric and junk values; Range, copy-source, Content-MD5, streaming/decoded-length, conditional, force-delete and oversized metadata headers; empty, random, valid and malformed XML and multipart-form bodies; mismatching Content-Length), issued against stores in the states {empty, objects, versioned with a delete marker and a deleted current version, pending uploads with gaps} with the options {default, host-bucket, auto-bucket, no-versioning}; each answer must be a complete response (no panic, no hang) that is a success or an error whose body is empty or an S3 error document with a code whose table status (re-read from error.go, evaluated by the Lean driver) equals the response status; one request in three comes from a mostly-valid stream (a well-formed operation on the prepared keys, version and pending upload with at most one deviation: rejected and accepted Complete variants, part uploads, aborts, ranged reads, copies, listings); every request is followed by a canary (a part upload and ListParts on the pending upload, every fourth time a whole initiate/part/rejected-complete/complete/GET/DELETE cycle, then PUT/GET/LIST/DELETE on the same and on another bucket); at the end of every instance the store is drained through legitimate requests (every version deleted by id, every key deleted, the pending upload aborted) and listed and read once more; declared lengths are capped at 1 MiB (resource exhaustion is outside the property); non-trivial = distinct request answered with an error", nReq)
+	c.R.Rule = fmt.Sprintf("%d requests per backend instance drawn from a grammar of the routed surface (methods incl. unknown ones; service/bucket/object paths incl. hostile keys and names; sub-resources uploads, uploadId, partNumber, versioning, versions, versionId, delete, location, list-type, prefix, delimiter, marker, max-keys, continuation-token, start-after, key-marker, version-id-marker, upload-id-marker, max-uploads, max-parts, part-number-marker with absurd numeric and junk values; Range, copy-source, Content-MD5, streaming/decoded-length, conditional, force-delete and oversized metadata headers; empty, random, valid and malformed XML and multipart-form bodies; mismatching Content-Length), issued against stores in the states {empty, objects, versioned with a delete marker and a deleted current version, pending uploads with gaps} with the options {default, host-bucket, auto-bucket, no-versioning}; each answer must be a complete response (no panic, no hang) that is a success or an error whose body is empty or an S3 error document with a code whose table status (re-read from error.go, evaluated by the Lean driver) equals the response status; one request in three comes from a mostly-valid stream (a well-formed operation on the prepared keys, version and pending upload with at most one deviation: rejected and accepted Complete variants, part uploads, aborts, ranged reads, copies, listings); every request is followed by a canary (a part upload and ListParts on the pending upload, every fourth time a whole initiate/part/rejected-complete/complete/GET/DELETE cycle, then PUT/GET/LIST/DELETE on the same and on another bucket); at the end of every instance the store is drained through legitimate requests (every version deleted by id, every key deleted, the pending upload aborted) and listed and read once more; fs backends additionally over a storage whose read-side calls start failing in the middle of a request (18 request kinds × failure after 0..7 calls): still a well-formed answer, no panic, and normal service once the storage answers again; declared lengths are capped at 1 MiB (resource exhaustion is outside the property); non-trivial = distinct request answered with an error", nReq)
 	type optSet struct {
 		name string
 		opts []gofakes3.Option
@@ -646,7 +647,112 @@ func runC09(c *Ctx) {
 			}
 		}
 	}
+	for _, kind := range c.kinds([]string{"fsM-mem", "fsS-mem", "fsM-dir", "fsS-dir"}) {
+		c09IOFaults(c, kind)
+	}
 	_ = io.EOF
+}
+
+// c09IOFaults: the storage below an fs backend stops answering in the middle of a request (the
+// k-th read-side file-system call and all later ones fail).  Whatever the request, the answer
+// must still be a complete, well-formed response — in practice a 500 with an S3 error document —
+// never a panic, and once the storage answers again so does the server.
+func c09IOFaults(c *Ctx, kind string) {
+	h, err := newCrashHarness(c, kind)
+	if err != nil {
+		c.mismatch(Mismatch{Kind: "model", Backend: kind, Finger: "setup", Impl: err.Error()})
+		return
+	}
+	defer func() {
+		if h.dir != "" {
+			os.RemoveAll(h.dir)
+		}
+	}()
+	if err := h.open(true); err != nil {
+		c.mismatch(Mismatch{Kind: "model", Backend: kind, Finger: "setup", Impl: err.Error()})
+		return
+	}
+	b := h.bucket
+	if strings.HasPrefix(kind, "fsM") {
+		h.inst.Do(impl.Req{Method: "PUT", Path: "/" + b})
+	}
+	for _, k := range []string{"a", "d/e", "d/f/g", "z"} {
+		h.put(k, []byte("body-of-"+k))
+	}
+	type rqd struct {
+		desc string
+		mk   func() impl.Req
+	}
+	reqs := []rqd{
+		{"GET object", func() impl.Req { return impl.Req{Method: "GET", Path: "/" + b + "/d/e"} }},
+		{"GET object range", func() impl.Req {
+			return impl.Req{Method: "GET", Path: "/" + b + "/d/e", Header: map[string]string{"Range": "bytes=1-3"}}
+		}},
+		{"HEAD object", func() impl.Req { return impl.Req{Method: "HEAD", Path: "/" + b + "/a"} }},
+		{"HEAD bucket", func() impl.Req { return impl.Req{Method: "HEAD", Path: "/" + b} }},
+		{"list", func() impl.Req { return impl.Req{Method: "GET", Path: "/" + b} }},
+		{"list delimiter", func() impl.Req { return impl.Req{Method: "GET", Path: "/" + b, Query: "delimiter=%2F&prefix=d%2F"} }},
+		{"list max-keys (un-paged retry)", func() impl.Req { return impl.Req{Method: "GET", Path: "/" + b, Query: "max-keys=2"} }},
+		{"list V2 max-keys delimiter", func() impl.Req {
+			return impl.Req{Method: "GET", Path: "/" + b, Query: "list-type=2&max-keys=1&delimiter=%2F"}
+		}},
+		{"list marker", func() impl.Req { return impl.Req{Method: "GET", Path: "/" + b, Query: "marker=a"} }},
+		{"list buckets", func() impl.Req { return impl.Req{Method: "GET", Path: "/"} }},
+		{"PUT object", func() impl.Req {
+			return impl.Req{Method: "PUT", Path: "/" + b + "/new", Body: bytes.NewReader([]byte("new-body"))}
+		}},
+		{"PUT overwrite", func() impl.Req {
+			return impl.Req{Method: "PUT", Path: "/" + b + "/a", Body: bytes.NewReader([]byte("over"))}
+		}},
+		{"copy", func() impl.Req {
+			return impl.Req{Method: "PUT", Path: "/" + b + "/copy", Header: map[string]string{"X-Amz-Copy-Source": "/" + b + "/d/e"}}
+		}},
+		{"DELETE object", func() impl.Req { return impl.Req{Method: "DELETE", Path: "/" + b + "/z"} }},
+		{"multi-delete", func() impl.Req {
+			return impl.Req{Method: "POST", Path: "/" + b, Query: "delete", Body: bytes.NewReader([]byte("<Delete><Object><Key>z</Key></Object><Object><Key>nope</Key></Object></Delete>"))}
+		}},
+		{"versions listing", func() impl.Req { return impl.Req{Method: "GET", Path: "/" + b, Query: "versions"} }},
+		{"initiate upload", func() impl.Req { return impl.Req{Method: "POST", Path: "/" + b + "/mp", Query: "uploads"} }},
+		{"DELETE bucket", func() impl.Req { return impl.Req{Method: "DELETE", Path: "/" + b} }},
+	}
+	setFault := func(n int) {
+		h.ffs.ReadFailAfter, h.ffs.Reads = n, 0
+		if h.fmeta != nil {
+			h.fmeta.ReadFailAfter, h.fmeta.Reads = n, 0
+		}
+	}
+	for _, rq := range reqs {
+		for n := 0; n <= 7; n++ {
+			setFault(n)
+			resp := h.inst.Do(rq.mk())
+			setFault(-1)
+			c.R.Evaluations++
+			ok, why := c09Wellformed(c, rq.mk().Method, resp)
+			desc := fmt.Sprintf("%s with every read-side file-system call after the first %d failing (input/output error)", rq.desc, n)
+			if !ok {
+				fp := "c09:io-fault:malformed-answer"
+				if strings.HasPrefix(why, "panic") {
+					fp = "c09:io-fault:panic"
+				} else if why == "hang" {
+					fp = "c09:io-fault:hang"
+				}
+				c.mismatch(Mismatch{Kind: "spec", Backend: kind, Case: []string{desc}, Impl: why, Spec: "a complete, well-formed answer", Finger: fp})
+				return
+			}
+			c.hist(fmt.Sprintf("io-fault:status:%d", resp.Status))
+			if resp.Status >= 500 {
+				c.nontrivial(fmt.Sprintf("%s|io|%s|%d", kind, rq.desc, n))
+			}
+			// the storage answers again: so does the server
+			g := h.inst.Do(impl.Req{Method: "GET", Path: "/" + b + "/d/f/g"})
+			l := h.inst.Do(impl.Req{Method: "GET", Path: "/" + b})
+			if g.Status != 200 || string(g.Body) != "body-of-d/f/g" || l.Status != 200 {
+				c.mismatch(Mismatch{Kind: "spec", Backend: kind, Case: []string{desc, "then, with the storage answering again: GET d/f/g and a listing"},
+					Impl: fmt.Sprintf("GET -> %d %q %s; list -> %d %s", g.Status, trunc(string(g.Body), 30), g.Panic, l.Status, l.Panic), Spec: "the server still answers correct requests correctly", Finger: "c09:io-fault:wedged"})
+				return
+			}
+		}
+	}
 }
 
 var c09VerRe = regexp.MustCompile(`<Key>([^<]*)</Key><VersionId>([^<]*)</VersionId>`)
